@@ -143,6 +143,8 @@ def render_expr(e):
         return f'(lambda {e[1]}: {render_expr(e[2])})({render_expr(e[3])})'
     if t == 'listcomp':
         return f'[{render_expr(e[1])} for {e[2]} in {render_expr(e[3])}]'
+    if t == 'genexp':       # (elt for var in iterable if cond): lazy — outside the Coq model
+        return f'({render_expr(e[1])} for {e[2]} in {render_expr(e[3])} if {render_expr(e[4])})'
     raise ValueError(f'bad expr {e!r}')
 
 
